@@ -1,0 +1,45 @@
+//go:build verif
+
+package stdlib
+
+// Contracts for govc (see /verif/DESIGN.md). Comment-only file.
+//
+// app(stage, ctx) is the string a compiled stage yields for a context. Stages are treated as
+// (deterministic, total) functions of the context: that is the inductive hypothesis of C08/C10.
+
+//@ smt
+//@ (declare-fun app (Int Int) Str)
+//@ end
+
+// A compiled stage is never nil (the compiler only ever produces closures).
+//@ nonnil rare/pkg/expressions.KeyBuilderStage
+//@ nonnil rare/pkg/expressions.KeyBuilderContext
+
+//@ functype rare/pkg/expressions.KeyBuilderStage
+//@   params (this, ctx)
+//@   pure
+//@   ensures result == app(this, ctx)
+
+// C11: bucket(v, s) is the multiple b of s with b <= v < b + s  (i.e. floor(v/s)*s; '/' below is
+// mathematical floor division), whenever that b is representable.
+//@ func kfBucket$1
+//@   requires *bucketSize > 0
+//@   requires len(*args) == 2
+//@   ensures [bad-type] !int_ok(app((*args)[0], context)) ==> result == "<BAD-TYPE>"
+//@   ensures [is-int] int_ok(app((*args)[0], context)) ==> result == itoa(unitoa(result))
+//@   ensures [lower] int_ok(app((*args)[0], context)) && atoi(app((*args)[0], context)) >= MinInt64 + *bucketSize ==> unitoa(result) <= atoi(app((*args)[0], context))
+//@   ensures [upper] int_ok(app((*args)[0], context)) && atoi(app((*args)[0], context)) >= MinInt64 + *bucketSize ==> atoi(app((*args)[0], context)) < unitoa(result) + *bucketSize
+//@   ensures [multiple] int_ok(app((*args)[0], context)) && atoi(app((*args)[0], context)) >= MinInt64 + *bucketSize ==> unitoa(result) == fdiv(atoi(app((*args)[0], context)), *bucketSize) * *bucketSize
+
+//@ func kfClamp$1
+//@   requires len(*args) == 3
+//@   ensures [bad-type] !int_ok(app((*args)[0], context)) ==> result == "<BAD-TYPE>"
+//@   ensures [inside] int_ok(app((*args)[0], context)) && *min <= atoi(app((*args)[0], context)) && atoi(app((*args)[0], context)) <= *max ==> result == app((*args)[0], context)
+//@   ensures [below] int_ok(app((*args)[0], context)) && atoi(app((*args)[0], context)) < *min ==> result == "min"
+//@   ensures [above] int_ok(app((*args)[0], context)) && atoi(app((*args)[0], context)) >= *min && atoi(app((*args)[0], context)) > *max ==> result == "max"
+
+// bucketrange: same bucket arithmetic; the formatted text "<b> - <b+s-1>" is checked by the
+// bounded oracle only (byte-level string building is outside the proof), safety is proved.
+//@ func kfBucketRange$1
+//@   requires *bucketSize > 0
+//@   requires len(*args) == 2
